@@ -244,8 +244,14 @@ def gen_ud(rng, creator, targets=None):
         sec["creator"] = sec_creator
     sec["payload"] = gen_payload(rng)
     if sec_creator == "O" and sec["comp"] == 0x2000:
-        fmt = rng.choice(["json", "text", "cbor", "custom", "other"])
-        if fmt == "json":
+        fmt = rng.choice(["json", "json", "text", "text", "cbor", "custom", "other", "badjson"])
+        if fmt == "badjson":
+            # sub-type says JSON, the text is not (cut off / not JSON at all); valid UTF-8, no NUL / blank padding
+            sec["subtype"] = 1
+            sec["payload"] = rng.choice([b'{"k": "v", "list": [1, 2', b'{"a": 1} trailing', b"not json at all", b'{"unterminated": "str'])\
+                .hex()
+            sec["badjson"] = True
+        elif fmt == "json":
             sec["subtype"] = 1
             sec["payload"], sec["expect_json"] = gen_builtin_json(rng)
         elif fmt == "text":
